@@ -21,6 +21,8 @@ import (
 	"crypto/x509"
 	"time"
 
+	"github.com/notaryproject/tspclient-go"
+
 	rt "github.com/notaryproject/notation-core-go/internal/zzverifrt"
 	"github.com/notaryproject/notation-core-go/signature"
 	"github.com/notaryproject/notation-core-go/signature/internal/base"
@@ -36,7 +38,7 @@ var attrs []attrSpec
 var signerKind int // 0 nil, 1 remote, 2 local (RSA key)
 var ctyChoice int
 
-var ctyValues = []string{"application/vnd.cncf.notary.payload.v1+json", "", " a/b", "nosubtype"}
+var ctyValues = []string{"application/vnd.cncf.notary.payload.v1+json", "nosubtype"}
 
 func buildRequest() *signature.SignRequest {
 	signSideMarshal, signSideUnmarshal = signMarshal, signUnmarshal
@@ -72,10 +74,7 @@ func buildRequest() *signature.SignRequest {
 		knownCerts = signerCerts
 		req.Signer = ls
 	}
-	if rt.Choose("timestamper", 2) == 1 {
-		req.Timestamper = envTimestamper{}
-	}
-	marshalFails = rt.Choose("final.encoding.fails", 2) == 1
+	req.Timestamper = rt.Havoc[tspclient.Timestamper]("timestamper") // nil or a timestamper: decided when the code looks
 	return req
 }
 
